@@ -75,6 +75,18 @@ int _vnacal_new_solve_simple(vnacal_new_solve_state_t *vnssp,
 	int iteration = 0;
 
 	/*
+	 * Fail if there are fewer equations than unknowns.  Test before
+	 * declaring the variable length arrays below so that a system
+	 * with no equations doesn't create a zero-length array.
+	 */
+	if (equations < unknowns) {
+	    _vnacal_error(vcp, VNAERR_MATH, "vnacal_new_solve: "
+		    "insufficient number of standards to solve "
+		    "error terms");
+	    goto out;
+	}
+
+	/*
 	 * For each iteration on the V matrices (if in use)...
 	 */
 	for (;;) {
@@ -124,12 +136,6 @@ int _vnacal_new_solve_simple(vnacal_new_solve_state_t *vnssp,
 	     * Solve for the unknowns using LU decomposition if a_matrix
 	     * is square, or QR decomposition if the system is overdetermined.
 	     */
-	    if (equations < unknowns) {
-		_vnacal_error(vcp, VNAERR_MATH, "vnacal_new_solve: "
-			"insufficient number of standards to solve "
-			"error terms");
-		return -1;
-	    }
 	    if (equations == unknowns) {
 		double complex determinant;
 
